@@ -249,7 +249,7 @@ func (f *Frame) callAsserts(st *State, site ssa.CallInstruction, common *ssa.Cal
 			continue
 		}
 		in := site.(ssa.Instruction)
-		sc := &Scope{c: c, fr: f, st: st, old: f.entry, vars: map[string]*Val{}, at: in.Block(), anyLoop: true, pkg: f.fn.Pkg}
+		sc := &Scope{c: c, fr: f, st: st, old: f.entry, vars: map[string]*Val{}, at: in.Block(), atInstr: in, anyLoop: true, pkg: f.fn.Pkg}
 		for i, a := range args {
 			sc.vars[fmt.Sprintf("arg%d", i)] = a
 		}
@@ -257,6 +257,11 @@ func (f *Frame) callAsserts(st *State, site ssa.CallInstruction, common *ssa.Cal
 			sc.vars["recv"] = fnv
 		}
 		where := fmt.Sprintf("call.%s.%d", sanitize(ca.Callee), ca.K)
+		if ca.Assume {
+			c.W.noteAssumed(fmt.Sprintf("%s: assumed at call %d of %s: %s", f.contract.FullName(), ca.K, ca.Callee, ca.Cl.Src))
+			c.Assume(st.reach, f.evalSpecBool(sc.asAssumption(), ca.Cl, where), "environment assumption "+ca.Cl.Name)
+			continue
+		}
 		t := f.evalSpecBool(sc.asGoal(), ca.Cl, where)
 		o := c.Oblige("assert", where+"."+ca.Cl.Name, st.reach, t, c.W.fset.Position(in.Pos()), "site obligation: "+ca.Cl.Src)
 		o.Inputs = f.inputTerms()
